@@ -35,10 +35,20 @@ PROP = dict(
              files={"gsfa/linkedlog/zz_verif_c06ll_test.go": "harness/gsfa/linkedlog/c06ll_test.go"},
              timeout=600, timeout_thorough=1800),
     ],
-    technique="TODO",
-    level_text="TODO",
-    level_note="TODO",
+    technique="Coq proofs (invariant over all step sequences of a small-step writer machine, refinement from record positions to (offset,size) byte pointers, codec round trip over an abstract compressor) + correspondence: the real writer/reader run on exhaustive small-scope histories under shrunk thresholds (overlay rewrite), real-threshold histories, GOMAXPROCS/pacing sweeps and a directed search for record lengths at the uvarint boundaries; every observation is compared with the model run by coqc, and the model's byte-level reader is run on the files the implementation wrote",
+    level_text="Theorems (Coq, closed under the global context; zstd is an explicit round-trip premise): (1) C06_get_all: for every parameter vector (batch size, parked capacity, flush thresholds, rank size), every history of Push calls (slot, address list with repetitions, entry) and EVERY interleaving of the background flusher's steps, after Close the byte-level Get returns for every address exactly the entries pushed with it, each once, newest first - provided the log stays addressable by 6-byte offsets / 3-byte sizes; instantiated at the constants generated from gsfa-write.go. (2) C06_machine_get_all: the same for arbitrary step sequences over any lawful store. (3) C06_put_read_roundtrip: Put then ReadWithSize for every record length; the pinned prefix rule is refuted at length 128 (and 16384/16385). (4) C06_flush_refines / C06_reader_refines: byte store refines the position store. (5) C06_get_all_sync_flush: the pinned synchronous periodic flush is correct under the forced hypothesis that purge() drops no key; refuted without it. Refutations of the pinned close order / dropped parked batches by vm_compute witnesses. Tie: see technique; the model follows the REPAIRED code (fixes/C06-*.diff), the pinned tree is reported with replays.",
+    level_note="Trusted: Coq kernel; the hand-written machine as a model of gsfa-write.go/gsfa-read.go/linked-log.go (atomicity: one flushKVs call, one channel receive, one per-key iteration of Push), validated by the correspondence runs; Go channel FIFO semantics; zstd round trip (premise); the pubkey-to-offset index (compactindexsized, property C04) is the abstract head map. Real goroutine timing is sampled (GOMAXPROCS 1/2/16 x pacing), the theorem covers all interleavings.",
     design_ref="5 (C06)",
-    trusted=COMMON_TRUSTED,
-    assumptions=[],
+    trusted=[
+        "model C06_Machine.v/C06_Front.v/C06_LinkedLog.v of gsfa-write.go, gsfa-read.go, linkedlog/linked-log.go, linkedlog/offset-size-slot.go (hand-written; tied by the correspondence runs)",
+        "tooling.CompressZstd/DecompressZstd round trip (explicit premise of the theorems; the real zstd is exercised by every harness run)",
+        "pubkey-to-offset-and-size index = finite map from address to (offset,size) (compactindexsized is property C04)",
+        "constants read from gsfa/gsfa-write.go by gen/c06.go (go/ast) into coq/Generated/ConstsC06.v",
+    ] + COMMON_TRUSTED,
+    assumptions=[
+        "zstd: decompress (compress x) = x",
+        "the linked log stays below 2^48 bytes and every record below 2^24 bytes (pointer format; Go panics beyond)",
+        "entries are uint64 offset/size/slot and a flag byte",
+        "no I/O error while writing or reading (the background writer only logs flush errors)",
+    ],
 )
